@@ -194,6 +194,64 @@ def s1_exclude(tier):
     return out
 
 
+def s1_exclude_a11(tier):
+    """A11 shapes (Exclude of a level of an uncrossed factor that a crossed derived factor depends on): the documentation does not
+    determine the crossing size, so these designs are used only by the oracle-free checks C07 and C08."""
+    out = []
+    A = basic('A', 2)
+    for nb in (2, 3):
+        B = basic('B', nb)
+        fm0 = {'A': A, 'B': B}
+        for D in derived_menu(fm0)[1:]:
+            factors = [A, B, D]
+            fm = {f['name']: f for f in factors}
+            names = [f['name'] for f in factors]
+            for cr in ([D['name']], ['A', D['name']], ['B', D['name']]):
+                for fn in D['deps']:
+                    if fn in cr:
+                        continue
+                    for lv in names_of(fm[fn])[:2]:
+                        for rcc in (True, False):
+                            for extra in ([], [{'c': 'MinimumTrials', 'k': crossing_size(fm, cr) + 1}]):
+                                out.append(spec(factors, cross(names, cr, [{'c': 'Exclude', 'factor': fn, 'level': lv}] + extra, rcc), 'S1xa'))
+    return out
+
+
+def s1_pairs(tier):
+    """pairs of constraints from a reduced menu (each single constraint combined with a MinimumTrials that leaves a partial last
+    pass, and a few pairs of two ordinary constraints)"""
+    out = []
+    A = basic('A', 2)
+    for nb in (2, 3):
+        B = basic('B', nb)
+        fm0 = {'A': A, 'B': B}
+        for D in derived_menu(fm0)[:3]:
+            factors = [A, B] + ([D] if D else [])
+            fm = {f['name']: f for f in factors}
+            names = [f['name'] for f in factors]
+            for cr in (['A'], ['A', 'B']) + ((['B', D['name']],) if D else ()):
+                size = crossing_size(fm, cr)
+                singles = []
+                for fn in names:
+                    l0 = names_of(fm[fn])[0]
+                    singles += [{'c': 'AtMostKInARow', 'k': 1, 'factor': fn, 'level': l0}, {'c': 'ExactlyK', 'k': 2, 'factor': fn, 'level': l0},
+                                {'c': 'Pin', 'index': -1, 'factor': fn, 'level': l0}]
+                    if 'deps' not in fm[fn] or fm[fn]['width'] == 1:
+                        if not (fn not in cr and any(fn in fm[c].get('deps', []) for c in cr)):      # A11
+                            singles.append({'c': 'Exclude', 'factor': fn, 'level': names_of(fm[fn])[-1]})
+                for c1 in singles:
+                    rcc = c1['c'] != 'Exclude'
+                    for mt in (size + 1, 2 * size - 1):
+                        if size < mt <= 7:
+                            out.append(spec(factors, cross(names, cr, [c1, {'c': 'MinimumTrials', 'k': mt}], rcc), 'S1p'))
+                if tier == 'thorough' or nb == 2:
+                    for c1, c2 in itertools.combinations(singles[:6], 2):
+                        if c1['c'] == 'Exclude' or c2['c'] == 'Exclude':
+                            continue
+                        out.append(spec(factors, cross(names, cr, [c1, c2]), 'S1p'))
+    return out
+
+
 def s2(tier):
     """weights: level weights on crossed / uncrossed basic factors, weighted derived levels."""
     out = []
@@ -565,7 +623,7 @@ def s9(tier):
     return out
 
 
-STRATA = {'S9': s9, 'S2s': s2_small, 'S1L': s1_latin3, 'S1': s1, 'S1x': s1_exclude, 'S2': s2, 'S3': s3, 'S4': s4, 'S5': s5, 'S6': s6}
+STRATA = {'S9': s9, 'S1p': s1_pairs, 'S1xa': s1_exclude_a11, 'S2s': s2_small, 'S1L': s1_latin3, 'S1': s1, 'S1x': s1_exclude, 'S2': s2, 'S3': s3, 'S4': s4, 'S5': s5, 'S6': s6}
 
 
 def shape_key(d):
